@@ -82,6 +82,7 @@ impl Preferences{
         prefs.insert("UEB_START_MODE".to_string(), Yaml::String("Grade2".to_string()));
         prefs.insert("DecimalSeparators".to_string(), Yaml::String(".".to_string()));
         prefs.insert("BlockSeparators".to_string(), Yaml::String(", \u{00A0}\u{202F}".to_string()));
+        prefs.insert("DecimalSeparator".to_string(), Yaml::String("Auto".to_string()));     // set_string_pref() relies on this being present
     
         return Preferences{ prefs };
     }
@@ -126,6 +127,17 @@ impl Preferences{
         }
 
         let doc = &docs[0];
+        if doc.as_hash().is_none() {
+            bail!("MathCAT: error in prefs file '{}'.\nThe file should contain a dictionary with the keys 'Speech', 'Navigation', 'Braille', and 'Other'. Found {}.",
+                        file_name, yaml_to_string(doc, 1));
+        }
+        for key in ["Speech", "Navigation", "Braille", "Other"] {
+            let section = &doc[key];
+            if !(section.is_badvalue() || section.is_null() || section.as_hash().is_some()) {
+                bail!("Yaml error in file {}.\n'{}' key is not a dictionary. Value found is {}.",
+                            file_name, key, yaml_to_string(section, 1));
+            }
+        }
         if cfg!(debug_assertions) {
             verify_keys(doc, "Speech", file_name)?;
             verify_keys(doc, "Navigation", file_name)?;
